@@ -157,12 +157,38 @@ def table_dict_node(repo: Repo, name: str) -> ast.Dict:
 
 def table_keys_with_nodes(repo: Repo, name: str):
     """(key string, key node, value node) for every entry of the dict literal,
-    duplicates included (a dict value would have collapsed them)."""
+    duplicates included (a dict value would have collapsed them).  Keys that
+    are not string literals and `**mapping` entries are evaluated with the
+    interpreter in the module's own namespace; the node reported for an
+    unpacked entry is the unpacked expression."""
     node = table_dict_node(repo, name)
     out = []
+    it = pmod = env = None
     for k, v in zip(node.keys, node.values):
-        if not (isinstance(k, ast.Constant) and isinstance(k.value, str)):
+        if isinstance(k, ast.Constant) and isinstance(k.value, str):
+            out.append((k.value, k, v))
+            continue
+        if it is None:
+            from .pe import ModuleEnv
+            it = Interp(repo)
+            pmod = it.module("vyxal.elements")
+            env = ModuleEnv(pmod)
+        try:
+            if k is None:
+                sub = it.eval(v, env, pmod)
+                if not isinstance(sub, dict):
+                    raise Unsupported("** of a non-dict")
+                for kk in sub:
+                    if not isinstance(kk, str):
+                        raise Unsupported("non-string key")
+                    out.append((kk, v, v))
+            else:
+                kk = it.eval(k, env, pmod)
+                if not isinstance(kk, str):
+                    raise Unsupported("non-string key")
+                out.append((kk, k, v))
+        except (Unsupported, PRaise) as exc:
             raise AnalysisError(
-                f"elements.{name}: non-literal key at line {k.lineno}")
-        out.append((k.value, k, v))
+                f"elements.{name}: entry at line {v.lineno} cannot be "
+                f"evaluated statically ({exc})") from None
     return out
